@@ -314,6 +314,7 @@ inductive Op where
   | crash
   | losedb
   | restart
+  | forge        -- the node's last record is replaced by one of a certificate the Agglayer has never seen (node down)
   deriving Repr
 
 def step (size : Params → Nat) (s : Sys) : Op → Sys
@@ -327,6 +328,11 @@ def step (size : Params → Nat) (s : Sys) : Op → Sys
   | .crash => { s with up := false }
   | .losedb => { s with up := false, loc := [] }
   | .restart => ({ (restart s).1 with failRec := false, failHdr := false })
+  | .forge =>
+    if s.up then s
+    else match s.loc.getLast? with
+      | none => s
+      | some l => { s with loc := s.loc.dropLast ++ [{ l with id := 9000000 + l.id }] }
 
 def run (size : Params → Nat) (s : Sys) (ops : List Op) : Sys := ops.foldl (step size) s
 
